@@ -1,1 +1,70 @@
-import PyshaclModel
+/-
+  C07 — SPARQL remote-graph mode and in-memory mode give the same report.
+
+  What pySHACL adds in this mode is (1) the SPARQL text of property paths, (2) the option screening that keeps
+  the run read-only, (3) `*_sparql` twins of some evaluators.  (1) and (2) are proved here for every path and
+  option vector; (3) is compared on the real code by the metamorphic oracle (sparql_mode off/on on equal
+  inputs) — the SPARQL engine itself is rdflib's and is outside the model, so the equality of the twins is
+  `…_partial`: proved for the path text they all embed, sampled for the query results.
+-/
+import PyshaclProofs.PrintProofs
+import PyshaclModel.Pipeline
+namespace Pyshacl.C07
+open Pyshacl SPath
+
+/-- **the printed path is a SPARQL 1.1 path with the SHACL path's meaning** — for every supported path
+    (IRI predicates, sequences and alternatives of ≥ 2 members, inverse, `*`, `+`, `?`, nested in any way,
+    e.g. stacked modifiers or the inverse of a sequence) within the printer's depth cap, and every prefix map:
+    the printer returns the rendering of an `SPath` that is well-formed at every grammar level (so the text
+    parses, and parses to that `SPath`) and that relates, in every graph, exactly the pairs `PathRel` relates -/
+theorem printed_path_parses_and_means_the_path (pf : List (String × String)) (p : Path) (fuel : Nat)
+    (hs : psup .path p = true) (hd : pd .path p ≤ Caps.sparqlPathDepth) (hf : psize p ≤ fuel) :
+    ∃ sp, Path.print pf fuel p 0 = .ok (render pf sp) ∧ sp.wf = true ∧ sp.isAlt = true ∧
+      ∀ g a b, sem sp g a b ↔ PathRel p g a b := by
+  obtain ⟨sp, hsp⟩ := tr_total .path p 0 hs (by omega)
+  have hl := tr_level .path p 0 sp hsp
+  exact ⟨sp, tr_prints pf .path p 0 sp hsp fuel hf, hl.1, hl.2.1, tr_sem .path p 0 sp hsp⟩
+
+/-- nested occurrences (recursion level > 0) are printed as a single PathEltOrInverse: a compound operand is
+    always parenthesised, so a modifier or `^` written after / before it applies to the whole operand -/
+theorem nested_path_is_one_element (pf : List (String × String)) (p : Path) (r fuel : Nat) (hr : r > 0) (sp : SPath)
+    (h : tr .path p r = some sp) (hf : psize p ≤ fuel) :
+    Path.print pf fuel p r = .ok (render pf sp) ∧ sp.isEltOrInv = true ∧ sp.wf = true := by
+  have hl := tr_level .path p r sp h
+  exact ⟨tr_prints pf .path p r sp h fuel hf, hl.2.2.1 hr, hl.1⟩
+
+/-- whenever the printer returns at all, what it returns is such a rendering (no other text is ever produced) -/
+theorem printer_output_is_a_rendering (pf : List (String × String)) (p : Path) (fuel : Nat) (sp : SPath)
+    (h : tr .path p 0 = some sp) (hf : psize p ≤ fuel) (txt : String) (ht : Path.print pf fuel p 0 = .ok txt) :
+    txt = render pf sp := by
+  have := tr_prints pf .path p 0 sp h fuel hf
+  rw [this] at ht; cases ht; rfl
+
+/-- **read-only**: in sparql_mode every stage that could write to the working graph is rejected or skipped, and
+    the graph that is validated is the caller's own object (never a clone): the only object written is the
+    shapes graph (its two system triples) -/
+theorem sparql_mode_readonly (c : Pipeline.Cfg) (js ip : Bool) (ops : List Pipeline.Op) (o : Pipeline.Obj)
+    (h : Pipeline.planSparql c js ip = some (ops, o)) :
+    o = .data ∧ ∀ op ∈ ops, op.writesCaller = false := by
+  unfold Pipeline.planSparql at h
+  split at h
+  · cases h
+  · cases h
+    exact ⟨rfl, by intro op hop; simp at hop; rcases hop with rfl | rfl <;> rfl⟩
+
+/-- the options that would write are refused outright -/
+theorem sparql_mode_rejects_writers (c : Pipeline.Cfg) (js ip : Bool)
+    (h : c.hasOnt = true ∨ c.inference = true ∨ ip = true ∨ js = true ∨ c.shapesInData = true) :
+    Pipeline.planSparql c js ip = none := by
+  unfold Pipeline.planSparql
+  rcases h with h | h | h | h | h <;> simp [h]
+
+/-! non-vacuity: stacked modifiers and the inverse of a sequence (both were defects of the pinned tree) -/
+def exP (s : String) : Path := .pred (.iri ("http://ex.test/" ++ s))
+example : psup .path (.star (.plus (exP "p"))) = true ∧ pd .path (.star (.plus (exP "p"))) = 2 := by decide
+example : tr .path (.star (.plus (exP "p"))) 0 =
+    some (.mod (.group (.mod (.iri "http://ex.test/p") .plus)) .star) := by decide
+example : tr .path (.inv (.seqCons (exP "p") (.seqLast (exP "q")))) 0 =
+    some (.inv (.group (.seq2 (.iri "http://ex.test/p") (.iri "http://ex.test/q")))) := by decide
+
+end Pyshacl.C07
